@@ -89,7 +89,7 @@ func (a *Real64) ConvertMagicScalar(t ScalarType) MagicScalar {
   case Real64Type:
     return a
   default:
-    r := NullScalar(t).(MagicScalar)
+    r := NullMagicScalar(t)
     r.Set(a)
     return r
   }
